@@ -233,3 +233,120 @@ package bfe_http2
 //@   ensures[padding_must_fit] len(p) >= hdr && pad > len(p) - hdr ==> err != nil
 //@   ensures[accepted_otherwise] fh.StreamID != 0 && len(p) >= hdr && pad <= len(p) - hdr ==> err == nil && typeis(result0, "*PushPromiseFrame")
 //@   ensures[fields] err == nil ==> unbox(result0, "*PushPromiseFrame").PromiseID == (be32(p[(padded ? 1 : 0):]) & 2147483647) && len(unbox(result0, "*PushPromiseFrame").headerFragBuf) == len(p) - hdr - pad
+
+// ---- C34: outbound DATA frames respect the peer's windows and the maximum frame size; order is kept ----
+
+//@ func (*writeQueue).empty
+//@   props C34
+//@   nopanic
+//@   requires q != nil
+//@   modifies nothing
+//@   ensures result0 == (len(q.s) == 0)
+
+//@ func (*writeQueue).head
+//@   props C34
+//@   nopanic
+//@   requires q != nil && len(q.s) > 0
+//@   modifies nothing
+//@   ensures result0 == q.s[0]
+
+//@ func (*writeQueue).streamID
+//@   props C34
+//@   nopanic
+//@   requires q != nil && len(q.s) > 0 && q.s[0].stream != nil
+//@   modifies nothing
+//@   ensures result0 == q.s[0].stream.id
+
+//@ func (*writeQueue).firstIsNoCost
+//@   props C34
+//@   nopanic
+//@   requires q != nil && len(q.s) > 0
+//@   requires typeis(q.s[0].write, "*writeData") ==> unbox(q.s[0].write, "*writeData") != nil
+//@   modifies nothing
+//@   ensures[only_non_empty_data_costs_flow_control] result0 == !(typeis(q.s[0].write, "*writeData") && len(unbox(q.s[0].write, "*writeData").p) > 0)
+
+//@ func (*writeQueue).shift
+//@   props C34
+//@   nopanic
+//@   requires q != nil && len(q.s) > 0
+//@   modifies q.s, q.s[..]
+//@   ensures[the_oldest_message_is_removed] result0 == old(q.s[0]) && len(q.s) == old(len(q.s)) - 1
+//@   ensures[the_others_keep_their_order] forall i int :: 0 <= i && i < len(q.s) ==> q.s[i] == old(q.s[i+1])
+
+//@ func (*writeQueue).push
+//@   props C34
+//@   nopanic
+//@   requires q != nil
+//@   modifies q.s, q.s[0:cap(q.s)]
+//@   ensures[appended_at_the_tail] len(q.s) == old(len(q.s)) + 1 && q.s[len(q.s)-1] == wm
+//@   ensures[the_others_keep_their_order] forall i int :: 0 <= i && i < old(len(q.s)) ==> q.s[i] == old(q.s[i])
+
+//@ func (*writeScheduler).putEmptyQueue
+//@   props C34
+//@   nopanic
+//@   requires ws != nil && q != nil && len(q.s) == 0
+//@   modifies ws.queuePool, ws.queuePool[0:cap(ws.queuePool)]
+//@   ensures len(ws.queuePool) == old(len(ws.queuePool)) + 1 && ws.queuePool[len(ws.queuePool)-1] == q
+//@   ensures forall i int :: 0 <= i && i < old(len(ws.queuePool)) ==> ws.queuePool[i] == old(ws.queuePool[i])
+
+//@ spec headIsData(q *writeQueue) bool := typeis(q.s[0].write, "*writeData") && len(unbox(q.s[0].write, "*writeData").p) > 0
+//@ spec wfHead(q *writeQueue) bool := q != nil && len(q.s) > 0 && (typeis(q.s[0].write, "*writeData") ==> unbox(q.s[0].write, "*writeData") != nil && len(unbox(q.s[0].write, "*writeData").p) <= 2147483647) && (headIsData(q) ==> q.s[0].stream != nil && q.s[0].stream.flow.conn != embed(q.s[0].stream, "flow") && q.s[0].stream.flow.conn != nil ==> true)
+
+//@ func (*writeScheduler).streamWritableBytes
+//@   props C34
+//@   nopanic
+//@   requires ws != nil && ws.maxFrameSize > 0 && ws.maxFrameSize <= 16777215
+//@   requires q != nil && len(q.s) > 0 && q.s[0].stream != nil && typeis(q.s[0].write, "*writeData") && unbox(q.s[0].write, "*writeData") != nil
+//@   modifies nothing
+//@   let av := flowAvail(embed(q.s[0].stream, "flow"))
+//@   let plen := len(unbox(q.s[0].write, "*writeData").p)
+//@   ensures[what_can_be_written_now] av > 0 ==> int(result0) == min(min(int(av), int(ws.maxFrameSize)), plen)
+//@   ensures[nothing_without_quota] av == 0 ==> result0 == 0
+
+//@ func (*writeScheduler).takeFrom
+//@   props C34
+//@   nopanic
+//@   requires ws != nil && ws.maxFrameSize > 0 && ws.maxFrameSize <= 16777215
+//@   requires q != nil && len(q.s) > 0
+//@   requires typeis(q.s[0].write, "*writeData") ==> unbox(q.s[0].write, "*writeData") != nil
+//@   requires headIsData(q) ==> q.s[0].stream != nil && q.s[0].stream.flow.conn != embed(q.s[0].stream, "flow") && flowAvail(embed(q.s[0].stream, "flow")) >= 0
+//@   modifies *
+//@   let fl := embed(old(q.s[0].stream), "flow")
+//@   let wd := unbox(old(q.s[0].write), "*writeData")
+//@   let av := old(flowAvail(embed(q.s[0].stream, "flow")))
+//@   let plen := old(len(unbox(q.s[0].write, "*writeData").p))
+//@   ensures[no_quota_then_nothing_is_sent_and_nothing_changes] old(headIsData(q)) && av == 0 ==> !result1 && fl.n == old(fl.n) && len(q.s) == old(len(q.s)) && q.s[0] == old(q.s[0]) && len(wd.p) == plen
+//@   ensures[a_data_frame_fits_both_windows_and_the_frame_size] old(headIsData(q)) && av > 0 ==> result1 && typeis(result0.write, "*writeData") && len(unbox(result0.write, "*writeData").p) <= int(av) && len(unbox(result0.write, "*writeData").p) <= int(old(ws.maxFrameSize)) && len(unbox(result0.write, "*writeData").p) == min(min(int(av), int(old(ws.maxFrameSize))), plen)
+//@   ensures[both_windows_shrink_by_exactly_the_bytes_sent] old(headIsData(q)) && av > 0 ==> int(fl.n) == int(old(fl.n)) - len(unbox(result0.write, "*writeData").p) && (old(fl.conn) != nil ==> int(old(fl.conn).n) == int(old(old(q.s[0].stream).flow.conn.n)) - len(unbox(result0.write, "*writeData").p))
+//@   ensures[a_split_sends_the_first_bytes_and_keeps_the_rest_at_the_head_of_the_queue] old(headIsData(q)) && av > 0 && plen > min(int(av), int(old(ws.maxFrameSize))) ==> len(q.s) == old(len(q.s)) && q.s[0] == old(q.s[0]) && sameslice(unbox(result0.write, "*writeData").p, old(wd.p)[0:min(int(av), int(old(ws.maxFrameSize)))]) && sameslice(wd.p, old(wd.p)[min(int(av), int(old(ws.maxFrameSize))):plen]) && !unbox(result0.write, "*writeData").endStream && result0.stream == old(q.s[0].stream)
+//@   ensures[otherwise_the_head_message_itself_is_sent_and_leaves_the_queue] !(old(headIsData(q)) && (av == 0 || plen > min(int(av), int(old(ws.maxFrameSize))))) ==> result1 && result0 == old(q.s[0]) && len(q.s) == old(len(q.s)) - 1 && (forall i int :: 0 <= i && i < len(q.s) ==> q.s[i] == old(q.s[i+1]))
+//@   ensures[and_its_payload_is_the_one_that_was_queued] !(old(headIsData(q)) && (av == 0 || plen > min(int(av), int(old(ws.maxFrameSize))))) && typeis(old(q.s[0].write), "*writeData") ==> sameslice(wd.p, old(wd.p))
+
+//@ spec wfQ(q *writeQueue) bool := q != nil && len(q.s) > 0 && (typeis(q.s[0].write, "*writeData") ==> unbox(q.s[0].write, "*writeData") != nil) && (headIsData(q) ==> q.s[0].stream != nil && q.s[0].stream.flow.conn != embed(q.s[0].stream, "flow") && flowAvail(embed(q.s[0].stream, "flow")) >= 0)
+//@ spec wfSched(ws *writeScheduler) bool := ws.maxFrameSize > 0 && ws.maxFrameSize <= 16777215 && (forall id uint32 :: has(ws.sq, id) ==> wfQ(ws.sq[id]) && ws.sq[id] != embed(ws, "zero") && (headIsData(ws.sq[id]) ==> ws.sq[id].s[0].stream.id == id)) && (forall i int :: 0 <= i && i < len(ws.zero.s) ==> !typeis(ws.zero.s[i].write, "*writeData"))
+
+//@ func (*writeScheduler).zeroCanSend
+//@   props C34
+//@   nopanic
+//@   requires ws != nil
+//@   modifies ws.canSend, ws.canSend[..]
+//@   ensures len(ws.canSend) == 0
+
+//@ func (*writeScheduler).take
+//@   props C34
+//@   nopanic
+//@   requires ws != nil && wfSched(ws) && len(ws.canSend) == 0
+//@   note the scheduler invariant (every stream queue is non-empty, is keyed by its stream's id, a DATA message at its head carries its stream, the control queue holds no DATA) is a precondition: its preservation by add/forgetStream is not proved
+//@   modifies *
+//@   ensures[a_data_frame_that_is_sent_fits_both_windows_and_the_frame_size] result1 && typeis(result0.write, "*writeData") && len(unbox(result0.write, "*writeData").p) > 0 ==> result0.stream != nil && len(unbox(result0.write, "*writeData").p) <= int(old(flowAvail(embed(result0.stream, "flow")))) && len(unbox(result0.write, "*writeData").p) <= int(old(ws.maxFrameSize))
+//@   loop 1 invariant[every_queue_seen_so_far_starts_with_data_that_costs_flow_control] ws != nil && wfSched(ws) && len(ws.canSend) == 0 && (forall id uint32 :: visited(id) && has(ws.sq, id) ==> headIsData(ws.sq[id]))
+//@   loop 2 invariant[every_queue_starts_with_data_that_costs_flow_control] ws != nil && wfSched(ws) && (forall id uint32 :: has(ws.sq, id) ==> headIsData(ws.sq[id]))
+//@   loop 2 invariant[sendable_queues_are_stream_queues] forall i int :: 0 <= i && i < len(ws.canSend) ==> (exists id uint32 :: has(ws.sq, id) && ws.canSend[i] == ws.sq[id])
+
+//@ func (*writeScheduler).forgetStream
+//@   props C34
+//@   nopanic
+//@   requires ws != nil && (forall k uint32 :: has(ws.sq, k) ==> ws.sq[k] != nil)
+//@   modifies *
+//@   ensures[no_frame_of_an_ended_stream_stays_queued] !has(ws.sq, id)
+//@   ensures[other_streams_keep_their_queues] forall k uint32 :: k != id ==> has(ws.sq, k) == old(has(ws.sq, k)) && ws.sq[k] == old(ws.sq[k])
